@@ -251,7 +251,10 @@ package keeper
 //@ requires oracleParams(Store_oracle).OracleRewardPercentage <= 100
 //@ ensures err == nil ==> (forall d Str :: DistrAllocated[d] - old(DistrAllocated)[d] == DistrReceived[d] - old(DistrReceived)[d])
 //@ assert after oracleRewardInt: oracleRewardInt == ext("DecCoins.TruncateDecimal", ext("DecCoins.MulDecTruncate", totalFee, wrap64(oracleParams(Store_oracle).OracleRewardPercentage) * 10000000000000000))
-// the transfer out of the fee collector never asks for more than the fee collector holds
+// the transfer out of the fee collector never asks for more than the fee collector holds (two stepping stones first)
+//@ assert after oracleRewardRatio: 0 <= oracleRewardRatio && oracleRewardRatio <= 1000000000000000000
+//@ assert after oracleRewardInt: forall d Str :: { ext("DecCoins.AmountOf", ext("DecCoins.MulDecTruncate", totalFee, oracleRewardRatio), d) } ext("DecCoins.AmountOf", ext("DecCoins.MulDecTruncate", totalFee, oracleRewardRatio), d) <= ext("DecCoins.AmountOf", totalFee, d)
+//@ assert after oracleRewardInt: forall d Str :: { ext("Coins.AmountOf", oracleRewardInt, d) } ext("Coins.AmountOf", oracleRewardInt, d) * 1000000000000000000 <= ext("DecCoins.AmountOf", ext("DecCoins.MulDecTruncate", totalFee, oracleRewardRatio), d)
 //@ assert after oracleRewardInt: forall d Str :: { ext("Coins.AmountOf", oracleRewardInt, d) } ext("Coins.AmountOf", oracleRewardInt, d) * 1000000000000000000 <= ext("DecCoins.AmountOf", totalFee, d)
 //@ assert before communityTax: oracleReward == ext("NewDecCoinsFromCoins", oracleRewardInt)
 //@ assert after communityFund: communityFund == ext("DecCoins.TruncateDecimal", ext("DecCoins.MulDecTruncate", ext("NewDecCoinsFromCoins", oracleRewardInt), communityTax))
